@@ -45,3 +45,8 @@ import pygal_load_gate  # noqa: E402
 # taskiq/serialization.py: the load side - exception_to_python and what it calls (C20), monadic backend over PyStm.v /
 # PyPreludeLoadGate.v; the generated exception_to_python_py is a structural Fixpoint on the payload tree
 SPECS["load_gate"] = pygal_load_gate.SPEC
+
+import pygal_labels  # noqa: E402
+
+# taskiq/labels.py (LabelType, _LABEL_PARSERS, prepare_label, parse_label) + taskiq/message.py TaskiqMessage.parse_labels (C09)
+SPECS["labels"] = pygal_labels.SPEC
